@@ -1,5 +1,5 @@
 import H8.Spec.Sem
-import H8.Model.Cpu
+import H8.Model.Exec
 import H8.Drv.Util
 namespace H8.Drv
 open H8
